@@ -83,13 +83,38 @@ def cases(tier, seed):
                             out.append(dict(type="hist", cfg=dict(kind="nonstatio", n=n, bx=b, nt=n, bt=b, dim=2, min_pts=box[0], max_pts=box[1],
                                                                   tmin=DOMS[bi][0], tmax=DOMS[bi][1], nb=4 * nf, bb=b, method=method,
                                                                   cartesian=bool((n + b + bi) % 2), key=key), x64=x64))
+    # 64-bit mode (also in the quick tier): 1-D domains whose end points are not representable in single precision
+    for dom in ([0.1, 0.7], [-0.7, 0.1]):
+        for kind in ("statio", "nonstatio"):
+            out.append(dict(type="ctor", kind=kind, method="uniform", dom=dom, ns=[2, 5], key=keys[0], x64=True))
+    # generators configured for residual-adaptive refinement: every pre-allocated row is a point of the domain
+    for x64 in x64s:
+        for key in keys:
+            for (n, n_start, b) in ((6, 2, 2), (7, 3, 2), (10, 4, 4)):
+                rar_t = {"start_iter": 0, "update_every": 1, "sample_size_times": 3, "selected_sample_size_times": 1}
+                rar_x = {"start_iter": 0, "update_every": 1, "sample_size_omega": 3, "selected_sample_size_omega": 1}
+                out.append(dict(type="hist", cfg=dict(kind="ode", nt=n, bt=b, tmin=0.5, tmax=2.0, method="uniform", key=key, rar=rar_t, nt_start=n_start), x64=x64))
+                out.append(dict(type="hist", cfg=dict(kind="statio", n=n, bx=b, dim=2, min_pts=[0.5, -3.0], max_pts=[2.0, -1.0], nb=None, bb=None,
+                                                      method="uniform", key=key, rar=rar_x, n_start=n_start), x64=x64))
+                out.append(dict(type="hist", cfg=dict(kind="nonstatio", n=n, bx=b, nt=n + 1, bt=b, dim=1, min_pts=[0.5], max_pts=[2.0], tmin=0.5, tmax=2.0,
+                                                      nb=None, bb=None, method="uniform", key=key, rar={**rar_t, **rar_x}, n_start=n_start, nt_start=n_start + 1), x64=x64))
     out.sort(key=lambda c: (c["x64"], c["type"] != "ctor", c["type"]))
     return out
 
 
+def _mode_dtype():
+    import jax
+    return np.float64 if jax.config.jax_enable_x64 else np.float32
+
+
+def _b(x, like=None):
+    """a declared bound in the default floating-point type of the current mode"""
+    return np.asarray(x, _mode_dtype())
+
+
 def _inbox(a, lo, hi):
     a = np.asarray(a)
-    return bool(np.all(a >= np.asarray(lo, a.dtype)) and np.all(a <= np.asarray(hi, a.dtype)))
+    return bool(np.all(a >= _b(lo)) and np.all(a <= _b(hi)))
 
 
 def check_state(cfg, g):
@@ -116,7 +141,7 @@ def check_state(cfg, g):
         if cfg.get("bb") is not None:
             ob = np.asarray(g.omega_border)
             if d == 1:
-                if ob.shape != (2,) or not (ob[0] == np.asarray(cfg["min_pts"][0], ob.dtype) and ob[1] == np.asarray(cfg["max_pts"][0], ob.dtype)):
+                if ob.shape != (2,) or not (ob[0] == _b(cfg["min_pts"][0]) and ob[1] == _b(cfg["max_pts"][0])):
                     v.append(V(site, "1d_border_is_not_the_pair_of_end_points", f"{ob}"))
             else:
                 nf = cfg["nb"] // 4
@@ -146,7 +171,7 @@ def _facets(site, ob, cfg, what):
     for f, (ax, val) in enumerate(pins):
         pinned = ob[:, ax, f]
         free = ob[:, 1 - ax, f]
-        if not np.all(pinned == np.asarray(val, ob.dtype)):
+        if not np.all(pinned == _b(val)):
             v.append(V(site, f"{what}_border_point_not_on_its_facet", f"facet {f} (order xmin,xmax,ymin,ymax) coordinate {ax} = {pinned[:3]} expected {val}"))
         if not _inbox(free, lo[1 - ax], hi[1 - ax]):
             v.append(V(site, f"{what}_border_free_coordinate_outside_box", f"facet {f} free axis {1 - ax} range [{free.min()},{free.max()}]"))
@@ -174,7 +199,7 @@ def check_batch(cfg, batch):
         if cfg.get("bb") is not None:
             bb = np.asarray(batch.border_batch)
             if d == 1:
-                exp = np.asarray([cfg["min_pts"][0], cfg["max_pts"][0]], bb.dtype)
+                exp = np.asarray([cfg["min_pts"][0], cfg["max_pts"][0]], _mode_dtype())
                 if bb.shape != (1, 1, 2) or not np.array_equal(bb[0, 0], exp):
                     v.append(V(site, "1d_border_batch_is_not_the_pair_of_end_points", f"{bb.tolist()}"))
             else:
@@ -201,7 +226,7 @@ def check_batch(cfg, batch):
                 if tb.shape != (cfg["bt"], 2, 2):
                     v.append(V(site, "batch_shape", f"border {tb.shape} expected ({cfg['bt']},2,2)"))
                 else:
-                    exp = np.asarray([cfg["min_pts"][0], cfg["max_pts"][0]], tb.dtype)
+                    exp = np.asarray([cfg["min_pts"][0], cfg["max_pts"][0]], _mode_dtype())
                     if not np.all(tb[:, 1, :] == exp[None, :]):
                         v.append(V(site, "1d_border_batch_is_not_the_pair_of_end_points", f"{tb[:, 1, :].tolist()}"))
                     if not _inbox(tb[:, 0, :], cfg["tmin"], cfg["tmax"]):
